@@ -24,11 +24,11 @@ type NetEvent struct {
 	RespType int    `json:"resp_type,omitempty"`
 	// OrigRespType is the response type as produced by the server, before any
 	// hook altered the event.
-	OrigRespType int `json:"-"`
-	Status   int    `json:"status,omitempty"`
-	Token    string `json:"-"`
-	Body     []byte `json:"-"`
-	OrigBody []byte `json:"-"`
+	OrigRespType int    `json:"-"`
+	Status       int    `json:"status,omitempty"`
+	Token        string `json:"-"`
+	Body         []byte `json:"-"`
+	OrigBody     []byte `json:"-"`
 
 	Path   string `json:"path,omitempty"`
 	Method string `json:"method,omitempty"`
